@@ -14,3 +14,4 @@ import Spade.Properties.C14
 #print axioms Spade.C14_code_hull_double_ended
 #print axioms Spade.C14_code_hull_front
 #print axioms Spade.C14_code_hull_back
+#print axioms Spade.C14_code_hull_mixed
